@@ -459,6 +459,7 @@ async def walk(acc, scenario, rng):
     world = World(scenario)
     steps = 0
     ops = []
+    failed = None
     async with trio.open_nursery() as nursery:
         nursery.start_soon(world.serve)
         await trio.sleep(INTERVAL / 2)
@@ -470,13 +471,37 @@ async def walk(acc, scenario, rng):
                 problems, obs = await world.step(op)
                 steps += 1
                 if problems or obs is None:
-                    report(acc, scenario, ops, problems, "walk")
-                    acc.count("walks:violating")
+                    failed = problems
                     break
         finally:
             nursery.cancel_scope.cancel()
     acc.outcome(("walk", len(world.stork.kids), world.stork.calls))
+    if failed:
+        acc.count("walks:violating")
+        for key, what in failed:
+            shorter, now = await shrink(scenario, ops, key)
+            report(acc, scenario, shorter, [(key, now or what)], "walk")
     return steps
+
+
+async def shrink(scenario, ops, key):
+    """Drop operations of a random walk as long as the same clause still breaks"""
+    what = None
+    if key.startswith("op-raised"):
+        return ops, what
+    changed = True
+    while changed:
+        changed = False
+        for skip in range(len(ops) - 1, -1, -1):
+            trial = ops[:skip] + ops[skip + 1:]
+            found = await check_history(scenario, trial)
+            if found is None or any(k.startswith("op-raised") for k, _ in found[0]):
+                continue
+            same = [text for k, text in found[0] if k == key]
+            if same:
+                ops, what, changed = trial[:found[1] + 1], same[0], True
+                break
+    return ops, what
 
 
 def quiet_gc():
@@ -533,13 +558,13 @@ def scenarios():
 
 
 def run(ctx):
-    depth = 4 if ctx.quick else 6
+    depth = 5 if ctx.quick else 7
     walks = 40 if ctx.quick else 400
     every = scenarios()
-    shards = [("bfs", scenario, depth) for scenario in every]
-    shards += [("walks", scenario, number, walks, ctx.seed)
-               for number, scenario in enumerate(every)]
-    ctx.pmap(shard, shards)
+    # the exhaustive part first: its counterexamples are the shortest of their scenario
+    ctx.pmap(shard, [("bfs", scenario, depth) for scenario in every])
+    ctx.pmap(shard, [("walks", scenario, number, walks, ctx.seed)
+                     for number, scenario in enumerate(every)])
     counters = ctx.acc.counters
     ctx.meta.update(
         rule="BFS over histories of {write D in %r, child supply := 0 | its demand, child "
